@@ -516,6 +516,42 @@ pub fn c16_run(opts: &crate::Opts, out: &mut Out) {
             }
         }
     }
+    // (4) valid mixed batches: members of different aggregation and capacity in every order (the largest statement
+    // supplies the precomputed table and the padding; a length mismatch there is a hard assertion in the MSM backend)
+    let mut pool: Vec<(Inst, Stmt, Proof)> = vec![];
+    for (mm, cc) in [(1usize, 4usize), (2, 4), (4, 4), (1, 1), (2, 8), (1, 2)] {
+        let i = random_inst(8, mm, cc, 2, 4 + mm, false, &mut rng);
+        let s = i.statement();
+        let p = i.prove(&mut rng).unwrap();
+        pool.push((i, s, p));
+    }
+    let orders: Vec<Vec<usize>> = vec![vec![0, 1], vec![1, 0], vec![0, 2], vec![3, 1], vec![1, 3], vec![0, 1, 2], vec![2, 1, 0], vec![3, 4], vec![4, 3], vec![5, 4, 0], vec![0, 5, 4], vec![3, 0, 1, 2, 4, 5], vec![5, 3, 0]];
+    for order in orders {
+        for tamper in [false, true] {
+            let stmts: Vec<Stmt> = order.iter().map(|i| pool[*i].1.clone()).collect();
+            let mut proofs: Vec<Proof> = order.iter().map(|i| pool[*i].2.clone()).collect();
+            if tamper {
+                // flip the low bit of r1 (t = 2 here): still a canonical scalar, every point still decodes
+                let mut b = proofs[proofs.len() - 1].to_bytes();
+                b[1 + 32 * (2 + 3)] ^= 1;
+                if let Ok(p) = Proof::from_bytes(&b) {
+                    let k = proofs.len() - 1;
+                    proofs[k] = p;
+                }
+            }
+            for action in ACTIONS {
+                let mut ts: Vec<Transcript> = order.iter().map(|i| pool[*i].0.transcript()).collect();
+                let r = std::panic::catch_unwind(std::panic::AssertUnwindSafe(|| Proof::verify_batch(&mut ts, &stmts, &proofs, action).is_ok()));
+                ncalls += 1;
+                let key = format!("{} mixed batch (agg,cap) order {:?} tampered={} action={}", GROUP, order.iter().map(|i| (pool[*i].0.m, pool[*i].0.cap)).collect::<Vec<_>>(), tamper, action_name(action));
+                out.oracle("C16:verify-no-panic", r.is_ok(), &key, "panicked");
+                if let Ok(ok) = r {
+                    out.oracle("C16:mixed-batch-verdict", ok == (!tamper || action == VerifyAction::RecoverOnly), &key, &format!("verdict {}", ok));
+                }
+                classes.insert((order.len(), order[0], 0, tamper as usize, 98, action_name(action)));
+            }
+        }
+    }
     out.stat(&format!("calls_{}", GROUP), ncalls);
     out.stat(&format!("worst_ms_{}", GROUP), worst_ms as u64);
     out.stat("distinct_classes", classes.len());
